@@ -18,6 +18,20 @@ def filter_stack(rng, vocab, dirs):
     return ";".join(layers), "f" * n, []
 
 
+def same_dir_stack(rng, vocab, dirs):
+    """2-3 filter_entry layers (plus an observer) that ALL name the same directory, with every sequence of tree / file verdicts (tree, file, tree: a
+    discarded tree must stay a discarded tree whatever a later layer says about it)"""
+    name = rng.choice(dirs)[-1] if dirs else rng.choice(vocab)
+    k = rng.choice([2, 3, 3, 3])          # the harness stacks at most four layers
+    verdicts = [rng.choice("TF") for _ in range(k)]
+    if k >= 3 and rng.random() < 0.5:
+        verdicts[:3] = list("TFT")
+    layers = ["f:%s=%s" % (hx(name), v) for v in verdicts]
+    if rng.random() < 0.3:
+        layers.append("f:")
+    return ";".join(layers), "same-dir:" + "".join(verdicts), []
+
+
 def followed_link_cases(seed, n):
     """path walks with links read as their TARGETS over trees whose links all lead to files or to directories that do not
     re-enter an ancestor, with at least one rule naming a link to a directory: a tree verdict on a followed link skips what
@@ -142,6 +156,7 @@ def run(rep, tier, seed, replay):
     direct = walklib.gen_cases(seed, n, stack=filter_stack, bounds="none", mode="p", link="f")
     direct = [c for c in direct if c.labels["base"] in ("root", "subdir")]
     direct += followed_link_cases(seed + 6, n)
+    direct += [c for c in walklib.gen_cases(seed + 8, n // 2, stack=same_dir_stack, bounds="none", mode="p", link="f") if c.labels["base"] in ("root", "subdir")]
     general = walklib.gen_cases(seed + 1, n)
     if replay is not None:
         c = walklib.case_from(replay["input"])
